@@ -39,6 +39,10 @@ pub struct ScriptedReader<'a> {
     pub pendings: Rc<Cell<u64>>,
     /// number of reads issued after the whole data was delivered
     pub reads_at_end: usize,
+    /// how the transport fills the caller's ReadBuf: 0 = put_slice, 1 = initialize_unfilled() + advance()
+    /// (the style of tokio's AsyncFd example, TLS wrappers and compat layers; it initialises the whole
+    /// unfilled part of the buffer but only advances by what was received)
+    pub fill_style: u8,
 }
 
 impl<'a> ScriptedReader<'a> {
@@ -55,6 +59,7 @@ impl<'a> ScriptedReader<'a> {
             max_calls: data.len() + steps.len() + 16,
             pendings: Rc::new(Cell::new(0)),
             reads_at_end: 0,
+            fill_style: 0,
         }
     }
     pub fn with_fault(mut self, pos: usize, kind: io::ErrorKind) -> Self {
@@ -104,7 +109,13 @@ impl<'a> AsyncRead for ScriptedReader<'a> {
         if let Some((fp, _)) = me.fault {
             n = n.min(fp - me.pos);
         }
-        buf.put_slice(&me.data[me.pos..me.pos + n]);
+        if me.fill_style == 0 {
+            buf.put_slice(&me.data[me.pos..me.pos + n]);
+        } else {
+            let dst = buf.initialize_unfilled();
+            dst[..n].copy_from_slice(&me.data[me.pos..me.pos + n]);
+            buf.advance(n);
+        }
         if me.keep_log {
             me.log.push(ReadRec { pos: me.pos, cap, got: Some(n) });
         }
@@ -132,6 +143,9 @@ pub struct ScriptedWriter<'a> {
     pub flushes: usize,
     /// accept one byte per call once the script is exhausted
     pub one_byte: bool,
+    /// the sink implements vectored writes itself (a short vectored write may end inside any buffer)
+    pub vectored: bool,
+    pub vectored_calls: usize,
 }
 
 impl<'a> ScriptedWriter<'a> {
@@ -146,7 +160,19 @@ impl<'a> ScriptedWriter<'a> {
             max_calls: expected_len * 2 + steps.len() + 64,
             flushes: 0,
             one_byte: false,
+            vectored: false,
+            vectored_calls: 0,
         }
+    }
+    fn do_write_vectored(&mut self, bufs: &[io::IoSlice<'_>]) -> Result<Option<usize>, io::Error> {
+        // same script as plain writes, but the accepted bytes may span several buffers
+        let total: usize = bufs.iter().map(|b| b.len()).sum();
+        let mut joined = Vec::with_capacity(total);
+        for b in bufs {
+            joined.extend_from_slice(b);
+        }
+        self.vectored_calls += 1;
+        self.do_write(&joined)
     }
     fn do_write(&mut self, data: &[u8]) -> Result<Option<usize>, io::Error> {
         self.calls += 1;
@@ -199,6 +225,26 @@ impl<'a> AsyncWrite for ScriptedWriter<'a> {
             Err(e) => Poll::Ready(Err(e)),
         }
     }
+    fn poll_write_vectored(self: Pin<&mut Self>, cx: &mut Context<'_>, bufs: &[io::IoSlice<'_>]) -> Poll<io::Result<usize>> {
+        let me = self.get_mut();
+        let r = if me.vectored {
+            me.do_write_vectored(bufs)
+        } else {
+            let first = bufs.iter().find(|b| !b.is_empty()).map(|b| &**b).unwrap_or(&[]);
+            me.do_write(first)
+        };
+        match r {
+            Ok(None) => {
+                cx.waker().wake_by_ref();
+                Poll::Pending
+            }
+            Ok(Some(n)) => Poll::Ready(Ok(n)),
+            Err(e) => Poll::Ready(Err(e)),
+        }
+    }
+    fn is_write_vectored(&self) -> bool {
+        self.vectored
+    }
     fn poll_flush(self: Pin<&mut Self>, _cx: &mut Context<'_>) -> Poll<io::Result<()>> {
         self.get_mut().flushes += 1;
         Poll::Ready(Ok(()))
@@ -213,6 +259,18 @@ impl<'a> io::Write for ScriptedWriter<'a> {
         loop {
             // a blocking sink has no Pending: skip those steps
             match self.do_write(buf)? {
+                None => continue,
+                Some(n) => return Ok(n),
+            }
+        }
+    }
+    fn write_vectored(&mut self, bufs: &[io::IoSlice<'_>]) -> io::Result<usize> {
+        if !self.vectored {
+            let first = bufs.iter().find(|b| !b.is_empty()).map(|b| &**b).unwrap_or(&[]);
+            return io::Write::write(self, first);
+        }
+        loop {
+            match self.do_write_vectored(bufs)? {
                 None => continue,
                 Some(n) => return Ok(n),
             }
